@@ -1,5 +1,6 @@
 import BoltonsVerif.Common
 import BoltonsVerif.C09.Model
+import BoltonsVerif.C09.KeyModel
 /-
 C09 line protocol.  One line = one call.
 
@@ -13,7 +14,10 @@ class `cls c` (`0` for None, `v + 1` otherwise).  Lists are comma separated, `-`
   split <sep> <maxsplit|-> <xs>          sep: n | v<code> | t<codes> (a str separator) | s<codes> | c<codes>
                                          | k<kind>:<codes> (an object of that kind holding the items)
   lstrip|rstrip|strip <code> <xs>
-  unique <key> <xs>                      key: id | mod<k> | div<k> | const | bool | real | imag | den | nope
+  unique <key> <xs>                      key: id | mod<k> | div<k> | const | bool | real | imag | den | nope,
+                                         optionally `<key>@<kind of the key object>` (none | lambda | partial |
+                                         object | method | class | falsy | str | list | int): the branch of the
+                                         function's key dispatch is then computed by the model (`KeyModel.lean`)
   redundant <key> <0|1> <xs>
   bucketize <key|L<codes>> <id|sq> <-|ne<class>> <xs>
   partition <key> <xs>
@@ -118,6 +122,26 @@ def keyArg? (s : String) : Option (KeyArg Nat Nat) :=
 /-- key token → key function on item codes, into key classes -/
 def key? (s : String) : Option (Nat → Nat) := (keyArg? s).map (keyFunc cls)
 
+/-- what a key token computes when it is called / looked up as an attribute -/
+def keyParts? (s : String) : Option ((Nat → Nat) × (Nat → Option Nat)) :=
+  (keyArg? s).map fun ka =>
+    match ka with
+    | .none => (cls, fun _ => none)
+    | .func f => (f, fun _ => none)
+    | .attr g => (cls, g)
+
+/-- `<key>` or `<key>@<kind>` for the function `fn` (unique / redundant / bucketize): with a kind, the branch
+    of `fn`'s key dispatch is computed from the facts about an object of that kind; `none` = unparsable,
+    `some none` = the call raises TypeError -/
+def keyVia? (fn s : String) : Option (Option (Nat → Nat)) :=
+  match splitOnChar s '@' with
+  | [name] => (key? name).map some
+  | [name, kind] =>
+    match keyParts? name, KeyKind.ofName? kind, keyBranchOf fn with
+    | some (f, g), some k, some br => some ((keyArgOf (br k.facts) f g).map (keyFunc cls))
+    | _, _, _ => none
+  | _ => none
+
 def vt? (s : String) : Option (Nat → Nat) :=
   if s = "id" then some id
   else if s = "sq" then some (fun c => if c = 0 then 0 else 1 + 3 * (val c * val c) + (if tag c = 2 then 0 else tag c))
@@ -178,12 +202,14 @@ def handle (line : String) : String :=
           "ok " ++ showNats (if op = "lstrip" then lstrip p xs else if op = "rstrip" then rstrip p xs
                              else strip p xs)
       else if op = "unique" then
-        match key? v with
-        | some f => "ok " ++ showNats (unique f xs)
+        match keyVia? "unique" v with
+        | some (some f) => "ok " ++ showNats (unique f xs)
+        | some none => "err TypeError"
         | none => "bad-op"
       else if op = "partition" then
-        match key? v with
-        | some f => let r := partition f 2 1 xs; s!"ok {showNats r.1}|{showNats r.2}"
+        match keyVia? "bucketize" v with
+        | some (some f) => let r := partition f 2 1 xs; s!"ok {showNats r.1}|{showNats r.2}"
+        | some none => "err TypeError"
         | none => "bad-op"
       else "bad-op"
   | ["pystrip", side, v, xs] =>
@@ -196,9 +222,10 @@ def handle (line : String) : String :=
       else "bad-op"
     | _, _ => "bad-op"
   | ["redundant", k, g, xs] =>
-    match key? k, bool? g, natList? xs with
-    | some f, some g, some xs =>
+    match keyVia? "redundant" k, bool? g, natList? xs with
+    | some (some f), some g, some xs =>
       if g then "ok " ++ showLL (redundantGroups f xs) else "ok " ++ showNats (redundant f xs)
+    | some none, some _, some _ => "err TypeError"
     | _, _, _ => "bad-op"
   | ["bucketize", k, vt, kf, xs] =>
     match vt? vt, kf? kf, natList? xs with
@@ -210,8 +237,9 @@ def handle (line : String) : String :=
           | .ok r => "ok " ++ showBuckets r
           | .error e => showErr e
         | none => "bad-op"
-      else match key? k with
-        | some f => "ok " ++ showBuckets (bucketize f g kf xs)
+      else match keyVia? "bucketize" k with
+        | some (some f) => "ok " ++ showBuckets (bucketize f g kf xs)
+        | some none => "err TypeError"
         | none => "bad-op"
     | _, _, _ => "bad-op"
   | ["chunk_ranges", size, cs, off, ov, al] =>
